@@ -240,6 +240,44 @@ def judge(ctx, p, rng):
         check_calls("complete", calls, expect_calls(skip=()))
         if any(k == "unused-extra" for k, _ in calls):
             res.violate("unused-name-called", case, [], "unused-extra")
+    if names and res.evaluations % 5 == 1:
+        # the schema was loaded with the application's own datatype
+        # registry, whose basic-key is the stock one except that it also
+        # takes a trailing '!': names are matched after *that* conversion
+        import io
+        import ZConfig.datatypes
+        import ZConfig.loader
+        stock = dict(ZConfig.datatypes.stock_datatypes)
+        bk = stock["basic-key"]
+        stock["basic-key"] = lambda s_: (bk(s_[:-1]) + "!") \
+            if s_.endswith("!") else bk(s_)
+        got = None
+        try:
+            schema2 = ZConfig.loader.SchemaLoader(
+                ZConfig.datatypes.Registry(stock)).loadFile(
+                    io.StringIO(p.xml))
+            _c2, h2 = ZConfig.loadConfigFile(schema2, io.StringIO(p.text))
+            calls2 = []
+            m2 = dict((variant_name(rng, n_),
+                       (lambda v, key=n_: calls2.append((key, v))))
+                      for n_ in names)
+            m2["Unused-Extra!"] = lambda v: calls2.append(("!", v))
+            h2(m2)
+            got = [(k, outcome.canon_value(v)) for k, v in calls2]
+        except Exception as e:  # noqa
+            got = "raised %s: %s" % (type(e).__name__, str(e)[:120])
+        res.count("own_registry_loads")
+        want = [(h, v) for h, v in entries]
+        if got != want:
+            res.violate("names-not-matched-by-the-schema's-own-basic-key",
+                        dict(case, map="own-registry"),
+                        [list(x) for x in want][:6],
+                        got if isinstance(got, str)
+                        else [list(x) for x in got][:6],
+                        detail="schema loaded with a registry whose "
+                        "basic-key also takes a trailing '!'; text=%r"
+                        % p.text, vsig="own-registry|%s" % (
+                            got[:20] if isinstance(got, str) else "trace"))
     if not names:
         res.sample("no-entries", {"schema": p.xml, "text": p.text}, 1)
         # a handler without entries still refuses two names that normalise
@@ -283,6 +321,39 @@ def judge(ctx, p, rng):
                     [list(out), [list((k, repr(v)[:40])) for k, v in calls]],
                     detail="missing=%s text=%r" % (missing, p.text),
                     vsig="missing|%s|%d" % (out[0], bool(calls)))
+    # 3b needed names missing while the map holds as many names as the
+    # handler needs, or more (foreign / stale names in their place): the
+    # missing name is the last, the first or any one, alone or with others
+    for which in ("last", "first", "any", "two"):
+        if which == "last":
+            gone = {entries[-1][0]} if entries else {names[-1]}
+        elif which == "first":
+            gone = {entries[0][0]} if entries else {names[0]}
+        elif which == "any":
+            gone = {rng.choice(names)}
+        else:
+            gone = set(rng.sample(names, min(2, len(names))))
+        gone = set(n_ for n_ in names if n_ in gone) or {names[-1]}
+        spec = [(variant_name(rng, n_), "rec") for n_ in names
+                if n_ not in gone]
+        for k in range(len(gone) + rng.choice([0, 1, 5])):
+            spec.insert(rng.randint(0, len(spec)),
+                        ("stale-name-%d" % k, rng.choice(["rec", "none"])))
+        calls, out = run("missing-surplus", spec)
+        res.count("error_maps")
+        res.count("error_maps_with_surplus_names")
+        res.sig(sigbase + "|missing-surplus|" + which)
+        if out[0] != "config-error" or calls:
+            res.violate("missing-name-not-all-or-nothing",
+                        dict(case, map="missing-surplus",
+                             missing=sorted(gone)),
+                        ["config-error", []],
+                        [list(out), [list((k, repr(v)[:40]))
+                                     for k, v in calls]],
+                        detail="missing=%s (map with %d names for %d) "
+                        "text=%r" % (sorted(gone), len(spec), len(names),
+                                     p.text),
+                        vsig="missing-surplus|%s|%d" % (out[0], bool(calls)))
     # 4 case-variant duplicates (of a needed or of an unneeded name), the
     # two spellings mapped to callable/callable, None/callable,
     # callable/None or None/None, in either insertion order
